@@ -31,11 +31,12 @@ def flatten(node: Any, expander: Any, variables: Any, res: list[str]) -> bool:
                     flatten(x, expander, variables, res)
             else:
                 node.flatten(expander, variables, res)
-        except TemplateRecursion:
+        except (TemplateRecursion, MemoryLimitError):
+            # both unwind to the outermost call, which yields nothing
             if expander.recursion_count > 2:
                 raise
             del res[old_len:]
-            log.warning("template recursion error ignored")
+            log.warning("template recursion or memory limit error ignored")
         after = variables.count
         return before == after
     finally:
@@ -140,6 +141,8 @@ class ArgumentList:
         tmp = "".join(tmp)
         if do_strip:
             tmp = tmp.strip()
+        if len(tmp) > 256 * 1024:
+            raise MemoryLimitError("template argument too long: %s bytes" % len(tmp))
 
         self.named_args[n] = (do_strip, tmp)
         return tmp
